@@ -60,6 +60,7 @@ struct Ell {
   // Snyder 15-9a:  t = tan(pi/4 - phi/2) / [(1 - e sin)/(1 + e sin)]^(e/2)  = (cos/(1+sin)) exp(e atanh(e sin))
   Q t(Q s, Q c) const { Q tn = s >= 0 ? c / (1 + s) : (1 - s) / c; return tn * expq(eatanhe(s)); }
   Q psi(Q s, Q c) const { return -logq(t(s, c)); }                                 // isometric latitude
+  Q lnt(Q s, Q c) const { return -psi(s, c); }
   // Snyder 3-12:  q = (1-e^2) [ sin/(1 - e^2 sin^2) - (1/2e) ln((1 - e sin)/(1 + e sin)) ]
   Q q(Q s) const { return (1 - e2) * (s / (1 - e2 * s * s) + atanhee(s)); }
   Q qp() const { return q(Q(1)); }
@@ -119,7 +120,13 @@ struct LCC {
     phi0 = asinq(n);
     Lat L0 = latr(phi0);
     rho0 = rho(L0);
+    // cancellation-free evaluation (needed for nearly cylindrical cones, |n| down to 1e-320): n rho0 = a k1 m1 (t0/t1)^n stays finite,
+    // rho0 - rho = -rho0 expm1(n (ln t - ln t0)),  rho0 (1 - cos theta) = n rho0 * 2 sin^2(theta/2)/n,  rho sin theta = n rho * sin(n lam)/n
+    lt0 = E.lnt(L0.s, L0.c);
+    nr0 = E.a * k1 * m1 * expq(n * (lt0 - E.lnt(L1.s, L1.c)));
+    rho0 = nr0 / n;
   }
+  Q lt0 = 0, nr0 = 0;
   static Q powq_(Q t, Q n) { return expq(n * logq(t)); }
   Q rho(Lat L) const {                                                                          // 15-7 (x k1)
     if (kind == 2) { PolarStereo ps(E, 1.0, n > 0); ps.k0 = k1; return ps.rho(L); }     // r >= 0
@@ -136,15 +143,19 @@ struct LCC {
       p.y = kmerc * E.psi(L.s, L.c); return p;
     }
     if (kind == 2) { Q r = rho(L); p.finite = finiteq(r); p.x = r * sinq(lam); p.y = -n * r * cosq(lam); return p; }   // 21-30, 21-31
-    Q r = rho(L), th = n * lam; p.finite = finiteq(r);
-    p.x = r * sinq(th); p.y = rho0 - r * cosq(th);                                              // 14-1, 14-2
+    Q th = n * lam;
+    if (L.c == 0) { Q r = rho(L); p.finite = finiteq(r); p.x = r * sinq(th); p.y = rho0 - r * cosq(th); return p; }   // a pole: rho = 0 or infinite (14-1, 14-2)
+    Q D = n * (E.lnt(L.s, L.c) - lt0), sh = sinq(th / 2);
+    p.x = nr0 * expq(D) * (sinq(th) / n);                                                       // rho sin theta
+    p.y = nr0 * (2 * sh * sh / n) - nr0 * (expm1q(D) / n) * cosq(th);                           // rho0 (1 - cos theta) + (rho0 - rho) cos theta
     return p;
   }
   Q gamma(Q lam) const { return kind == 1 ? Q(0) : n * lam; }
-  Q k(Lat L) const {                                                                            // 15-? k = rho n/(a m)
+  Q k(Lat L) const {                                                                            // k = rho n/(a m)
     if (kind == 1) return kmerc / (E.a * E.m(L.s, L.c));
     if (kind == 2) { PolarStereo p(E, 1.0, n > 0); p.k0 = k1; return p.k(L); }
-    return rho(L) * n / (E.a * E.m(L.s, L.c));
+    if (L.c == 0) return rho(L) * n / (E.a * E.m(L.s, L.c));
+    return nr0 * expq(n * (E.lnt(L.s, L.c) - lt0)) / (E.a * E.m(L.s, L.c));
   }
 };
 
@@ -176,7 +187,7 @@ struct Albers {
         phi0 = (a_ + b_) / 2;
       }
     }
-    rho0 = rho(latr(phi0));
+    rho0 = rho(latr(phi0)); q0 = E.q(latr(phi0).s);
     if (same && L1.c == 0) rho0 = 0;
     if (!same && ((L1.c == 0 && phi0 == atan2q(L1.s, L1.c)) || (L2.c == 0 && phi0 == atan2q(L2.s, L2.c)))) rho0 = 0;   // origin at a pole that is a standard parallel: C - n q_p = 0
   }
@@ -184,14 +195,20 @@ struct Albers {
   XY fwd(Lat L, Q lam) const {
     XY p; p.finite = true;
     if (kind == 1) { p.x = E.a * kcyl * lam; p.y = E.a * E.q(L.s) / (2 * kcyl); return p; }
-    Q r = rho(L), th = n * lam;
-    p.x = r * sinq(th); p.y = rho0 - r * cosq(th); return p;
+    // cancellation-free (nearly cylindrical cones): n rho = a s, s = sqrt(C - n q);  rho0 - rho = a (q - q0)/(s0 + s);  (1 - cos theta)/n = 2 sin^2(theta/2)/n
+    Q th = n * lam, s_ = sroot(L.s), s0_ = n * rho0 / E.a, sh = sinq(th / 2);
+    Q dr = (s0_ + s_) > 0 ? E.a * (E.q(L.s) - q0) / (s0_ + s_) : Q(0);
+    p.x = E.a * s_ * (sinq(th) / n);
+    p.y = E.a * s0_ * (2 * sh * sh / n) + dr * cosq(th);
+    return p;
   }
+  Q sroot(Q sphi) const { Q u = C - n * E.q(sphi); if (u < 0) u = 0; return sqrtq(u); }
   Q gamma(Q lam) const { return kind == 1 ? Q(0) : n * lam; }
-  Q k(Lat L) const {                                                                            // azimuthal scale rho n/(a m)
+  Q k(Lat L) const {                                                                            // azimuthal scale rho n/(a m) = s/m
     if (kind == 1) return kcyl / E.m(L.s, L.c);
-    return rho(L) * n / (E.a * E.m(L.s, L.c));
+    return sroot(L.s) / E.m(L.s, L.c);
   }
+  Q q0 = 0;
 };
 
 // ------------------------------------------------------------------ numerical Jacobian of an oracle map
